@@ -65,6 +65,9 @@ def Closed (s : Store) : Prop :=
 def ClosedFor (s : Store) (roots : List Id) : Prop :=
   ∀ x, Reach s roots x → (s x).isSome = true
 
+/-- The names in `l` the store actually has. -/
+def present (s : Store) (l : List Id) : List Id := l.filter fun x => (s x).isSome
+
 /-- Store given by an association list (first binding wins) — what the driver and the concrete
 examples use. -/
 def ofList (l : List (Id × Obj)) : Store := fun x => l.lookup x
